@@ -1,0 +1,12 @@
+//go:build verif
+
+/*
+SPDX-License-Identifier: Apache-2.0
+*/
+
+package didexchange
+
+// VerifStop ends the listener goroutine of a service instance that is not used any more (the service offers no way
+// to stop it): the callback channel is closed, the listener's range loop returns. Callbacks handed out before must
+// not be invoked afterwards.
+func (s *Service) VerifStop() { close(s.callbackChannel) }
